@@ -204,8 +204,45 @@ namespace
           eqJ = false;
       ++rounds;
     }
+    // LU decomposition and linear solve, function level: the generated Doolittle decomposition and substitution
+    // against the vectorised CPU Doolittle / LinearSolver on the mechanism's own Jacobian pattern, diagonally shifted
+    bool eqLU = true, eqX = true;
+    {
+      VS A = micm::BuildJacobian<VS>(nz, L, p.ns);
+      cpu.SetJacobianFlatIds(A);
+      A.Fill(0.0);
+      cpu.template SubtractJacobianTerms<VM, VS>(K, Y, A);
+      A.AddToDiagonal(50.0 + 100.0 * r.unit());
+      micm::LinearSolver<VS, micm::LuDecompositionDoolittle> lsc(A, 0.0);
+      auto luc = micm::LuDecompositionDoolittle::template GetLUMatrices<VS, VS, VS>(A, 0.0);
+      micm::JitLinearSolver<L, VS, micm::JitLuDecompositionDoolittle<L>> lsj(A, 0.0);
+      auto luj = micm::JitLuDecompositionDoolittle<L>::template GetLUMatrices<VS, VS, VS>(A, 0.0);
+      for (auto* m : { &luc.first, &luc.second, &luj.first, &luj.second })
+        for (auto& v : m->AsVector())
+          v = -3.25;   // arbitrary prior contents
+      VS Ac = A, Aj = A;
+      lsc.Factor(Ac, luc.first, luc.second);
+      lsj.Factor(Aj, luj.first, luj.second);
+      for (std::size_t i = 0; i < luc.first.AsVector().size(); ++i)
+        if (vh::hexd(luc.first.AsVector()[i]) != vh::hexd(luj.first.AsVector()[i]))
+          eqLU = false;
+      for (std::size_t i = 0; i < luc.second.AsVector().size(); ++i)
+        if (vh::hexd(luc.second.AsVector()[i]) != vh::hexd(luj.second.AsVector()[i]))
+          eqLU = false;
+      VM bc(L, p.ns, 0.0);
+      for (std::size_t c = 0; c < L; ++c)
+        for (std::size_t i = 0; i < p.ns; ++i)
+          bc[c][i] = 10.0 * r.unit() - 5.0;
+      VM bj = bc;
+      lsc.template Solve<VM>(bc, luc.first, luc.second);
+      lsj.template Solve<VM>(bj, luj.first, luj.second);
+      for (std::size_t i = 0; i < bc.AsVector().size(); ++i)
+        if (vh::hexd(bc.AsVector()[i]) != vh::hexd(bj.AsVector()[i]))
+          eqX = false;
+    }
     return "jitfn L=" + std::to_string(L) + " seed=" + std::to_string(seed) + " ns=" + std::to_string(p.ns) + " nrx=" + std::to_string(nrx) +
-           " forcing_equal=" + (eqF ? "1" : "0") + " jacobian_equal=" + (eqJ ? "1" : "0") + " rounds=" + std::to_string(rounds);
+           " forcing_equal=" + (eqF ? "1" : "0") + " jacobian_equal=" + (eqJ ? "1" : "0") + " lu_equal=" + (eqLU ? "1" : "0") +
+           " solve_equal=" + (eqX ? "1" : "0") + " rounds=" + std::to_string(rounds);
   }
 }  // namespace
 
